@@ -148,6 +148,12 @@ pub struct TestLogp {
     pub sleep_us: u64,
     /// which chain of a parallel run this density belongs to
     pub chain_tag: Option<u64>,
+    /// make scripted faults a function of the point: a point that evaluated fine never fails later
+    /// and a point that failed fails the same way again (the sampler re-evaluates the current
+    /// point, e.g. when the step-size search is re-run; a real density is deterministic)
+    pub consistent_faults: bool,
+    pub seen_good: std::collections::HashSet<Vec<u64>>,
+    pub seen_bad: HashMap<Vec<u64>, Fault>,
 }
 
 impl TestLogp {
@@ -167,6 +173,9 @@ impl TestLogp {
             expand_count: Arc::new(Mutex::new(0)),
             sleep_us: 0,
             chain_tag: None,
+            consistent_faults: false,
+            seen_good: Default::default(),
+            seen_bad: HashMap::new(),
         }
     }
     pub fn std_normal(dim: usize) -> Self {
@@ -344,6 +353,22 @@ impl CpuLogpFunc for TestLogp {
             if let Some((thr, f)) = self.region_fault {
                 if self.dim > 0 && position[0] > thr {
                     fault = Some(f);
+                }
+            }
+        }
+        let key: Vec<u64> = if self.consistent_faults { position.iter().map(|x| x.to_bits()).collect() } else { vec![] };
+        if self.consistent_faults {
+            if let Some(f) = self.seen_bad.get(&key) {
+                fault = Some(*f);
+            } else if fault.is_some() && self.seen_good.contains(&key) {
+                fault = None;
+            }
+            match fault {
+                Some(f) => {
+                    self.seen_bad.insert(key, f);
+                }
+                None => {
+                    self.seen_good.insert(key);
                 }
             }
         }
